@@ -252,6 +252,30 @@ def close_rel(ctx, g):
                 guarded = all(any(atom_norm(x, g)[0] == "bool" and is_call(atom_norm(x, g)[1], "contains_key") and atom_norm(x, g)[2] is False for x in b.facts_at(pb)) for pb in pushes)
                 okseq = isvec and len(pushes) >= 1 and guarded
                 why = "the collection is %s with %d per-occurrence pushes under !contains_key" % (ty[:40] or a[2][1].split("::")[-2], len(pushes))
+                # ... and under nothing else: every condition that holds at the push but not yet at the contains_key test must BE that test
+                # (a second conjunct such as `not already in cuts` drops repeated occurrences again)
+                for pb in pushes:
+                    cks = [cb for cb, ct_ in b.calls("contains_key") if b.dominates(cb, pb)]
+                    if not cks:
+                        continue
+                    before = {repr(atom_norm(x, g)) for x in b.facts_at(cks[-1])}
+                    extra = []
+                    # facts established by the program's tests only: conditions of MIR assertions (overflow of `-h`, bounds) are not guards
+                    tested = []
+                    for edge, (term_, val_) in b.dominating_edges(pb):
+                        if b.blocks[edge[0]]["term"]["k"] == "assert":
+                            continue
+                        tested += atoms_of(term_, val_)
+                    for x in tested:
+                        x = atom_norm(x, g)
+                        if repr(x) in before or is_ovf_atom(x):
+                            continue
+                        if contains(("agg", "x", tuple(y for y in x[1:] if isinstance(y, tuple))), lambda y: is_call(y, "contains_key")):
+                            continue
+                        extra.append(x)
+                    if extra:
+                        okseq = False
+                        why = "an unlabelled occurrence is recorded only if additionally %s" % show_atom(extra[0])[:70]
     ctx.ob("T3-propagate-single-cut", b.name, "cuts counts occurrences", "ok" if okseq else "violation",
            "unlabelled occurrences are pushed one by one into a Vec and the propagation needs exactly one of them" if okseq else
            "the unlabelled edges of a relator walk are not counted with multiplicity (%s): a relator that crosses one unlabelled edge several times (a power relator at a row with torsion) "
